@@ -1256,4 +1256,505 @@ theorem copy_eq_real (hashOf : Val → Option Nat) (t : Val) (hwf : t.WF) (hn : 
     simp only [h1, hB, Option.map_some, Option.some.injEq] at hs
     simp [reify_of_mapE_eq hs, hr]
 
+
+/-! ## Part D: invariants of the copy's object graph (real loop): closed and acyclic; hashes only from the source -/
+
+/-- any property of arenas kept by the four heap operations of `__deepcopy__` holds of the finished copy -/
+theorem copyVals_pres (att : Attach) (P : List Cell → Prop)
+    (hatt : ∀ A (v : Val) j k arr A', P A → att A v.toCell j k arr = some A' → P A')
+    (j : Nat) (k : String) : ∀ (vs : List Val) (A : List Cell) (pushed : List CItem) (r : List Cell × List CItem),
+    P A → copyVals att j k vs A pushed = some r → P r.1 := by
+  intro vs
+  induction vs with
+  | nil => intro A pushed r hP h; simp [copyVals] at h; subst h; exact hP
+  | cons v vs ih =>
+    intro A pushed r hP h
+    simp only [copyVals] at h
+    cases h1 : att A v.toCell j k true with
+    | none => simp [h1] at h
+    | some A' =>
+      simp only [h1] at h
+      exact ih A' _ r (hatt A v j k true A' hP h1) h
+
+theorem copyArgs_pres (att : Attach) (P : List Cell → Prop)
+    (hatt : ∀ A (v : Val) j k arr A', P A → att A v.toCell j k arr = some A' → P A')
+    (hassign1 : ∀ A j k (v : Val) A', P A → v.isNode = false →
+      assignArg A j k (.one A.length) [v.toCell] = some A' → P A')
+    (hassign0 : ∀ A j k A', P A → assignArg A j k (.many []) [] = some A' → P A')
+    (j : Nat) : ∀ (args : List Arg) (A : List Cell) (pushed : List CItem) (r : List Cell × List CItem),
+    P A → copyArgs att j args A pushed = some r → P r.1 := by
+  intro args
+  induction args with
+  | nil => intro A pushed r hP h; simp [copyArgs] at h; subst h; exact hP
+  | cons a rest ih =>
+    intro A pushed r hP h
+    cases a with
+    | one k v =>
+      simp only [copyArgs] at h
+      by_cases hn : v.isNode = true
+      · simp only [hn, if_true] at h
+        cases h1 : att A v.toCell j k false with
+        | none => simp [h1] at h
+        | some A' =>
+          simp only [h1] at h
+          exact ih A' _ r (hatt A v j k false A' hP h1) h
+      · have hn' : v.isNode = false := by simpa using hn
+        simp only [hn', Bool.false_eq_true, if_false] at h
+        cases h1 : assignArg A j k (.one A.length) [v.toCell] with
+        | none => simp [h1] at h
+        | some A' =>
+          simp only [h1] at h
+          exact ih A' _ r (hassign1 A j k v A' hP hn' h1) h
+    | many k vs =>
+      simp only [copyArgs] at h
+      cases h1 : assignArg A j k (.many []) [] with
+      | none => simp [h1] at h
+      | some A0 =>
+        simp only [h1] at h
+        cases h2 : copyVals att j k vs A0 pushed with
+        | none => simp [h2] at h
+        | some r1 =>
+          obtain ⟨A1, p1⟩ := r1
+          simp only [h2] at h
+          have := copyVals_pres att P hatt j k vs A0 pushed _ (hassign0 A j k A0 hP h1) h2
+          exact ih A1 p1 r this h
+
+theorem copyLoopWith_pres (att : Attach) (hashOf : Val → Option Nat) (P : List Cell → Prop)
+    (hatt : ∀ A (v : Val) j k arr A', P A → att A v.toCell j k arr = some A' → P A')
+    (hassign1 : ∀ A j k (v : Val) A', P A → v.isNode = false →
+      assignArg A j k (.one A.length) [v.toCell] = some A' → P A')
+    (hassign0 : ∀ A j k A', P A → assignArg A j k (.many []) [] = some A' → P A')
+    (hfill : ∀ A j c ty m (v : Val) A', P A → fillCell A j c ty m (hashOf v) = some A' → P A') :
+    ∀ (fuel : Nat) (st : List CItem) (A B : List Cell), P A → copyLoopWith att hashOf fuel st A = some B → P B := by
+  intro fuel
+  induction fuel with
+  | zero =>
+    intro st A B hP h
+    cases st with
+    | nil => simp [copyLoopWith] at h; subst h; exact hP
+    | cons e es => simp [copyLoopWith] at h
+  | succ fuel ih =>
+    intro st A B hP h
+    cases st with
+    | nil => simp [copyLoopWith] at h; subst h; exact hP
+    | cons e st' =>
+      obtain ⟨v, j⟩ := e
+      cases v with
+      | dtype s => simp [copyLoopWith] at h
+      | raw r => simp [copyLoopWith] at h
+      | node cls ty c m args =>
+        simp only [copyLoopWith] at h
+        generalize copyTyWith _ ty = oty at h
+        generalize copyMetaWith _ m = om at h
+        cases oty with
+        | none => simp at h
+        | some ty' =>
+          cases om with
+          | none => simp at h
+          | some m' =>
+            simp only at h
+            cases h1 : fillCell A j c ty' m' (hashOf (Val.node cls ty c m args)) with
+            | none => simp [h1] at h
+            | some A1 =>
+              simp only [h1] at h
+              cases h2 : copyArgs att j args A1 [] with
+              | none => simp [h2] at h
+              | some r =>
+                obtain ⟨A2, pushed⟩ := r
+                simp only [h2] at h
+                have hP1 := hfill A j c ty' m' _ A1 hP h1
+                have hP2 := copyArgs_pres att P hatt hassign1 hassign0 j args A1 [] _ hP1 h2
+                exact ih _ A2 B hP2 h
+
+/-- no cached hash is invented: every `_hash` in the copy is `None` or the cached hash of some source node -/
+def HInv (hashOf : Val → Option Nat) (A : List Cell) : Prop :=
+  ∀ (j : Nat) cls ty c m args l h, A[j]? = some (Cell.node cls ty c m args l h) → h = none ∨ ∃ v, h = hashOf v
+
+theorem hinv_set {hashOf : Val → Option Nat} {A : List Cell} (hA : HInv hashOf A) (i : Nat) (cls ty c m args l h)
+    (hh : h = none ∨ ∃ v, h = hashOf v) : HInv hashOf (A.set i (Cell.node cls ty c m args l h)) := by
+  intro j cls' ty' c' m' args' l' h' hj
+  by_cases hji : i = j
+  · subst hji
+    by_cases hlt : i < A.length
+    · simp [hlt] at hj; obtain ⟨_, _, _, _, _, _, rfl⟩ := hj; exact hh
+    · have : (A.set i (Cell.node cls ty c m args l h))[i]? = none := by
+        simp [List.getElem?_eq_none_iff]; omega
+      simp [this] at hj
+  · rw [List.getElem?_set_ne hji] at hj
+    exact hA j _ _ _ _ _ _ _ hj
+
+theorem hinv_append {hashOf : Val → Option Nat} {A : List Cell} (hA : HInv hashOf A) (cells : List Cell)
+    (hc : ∀ c ∈ cells, ∀ cls ty cm m args l h, c = Cell.node cls ty cm m args l h → h = none) :
+    HInv hashOf (A ++ cells) := by
+  intro j cls ty c m args l h hj
+  by_cases hlt : j < A.length
+  · rw [List.getElem?_append_left hlt] at hj
+    exact hA j _ _ _ _ _ _ _ hj
+  · rw [List.getElem?_append_right (by omega)] at hj
+    have := List.mem_of_getElem? hj
+    exact Or.inl (hc _ this _ _ _ _ _ _ _ rfl)
+
+theorem clearUp_hinv (hashOf : Val → Option Nat) : ∀ (fuel : Nat) (A : List Cell) (i : Nat),
+    HInv hashOf A → HInv hashOf (clearUp A fuel i) := by
+  intro fuel
+  induction fuel with
+  | zero => intro A i h; exact h
+  | succ n ih =>
+    intro A i h
+    simp only [clearUp]
+    split
+    · split
+      · exact ih _ _ (hinv_set h i _ _ _ _ _ _ _ (Or.inl rfl))
+      · exact hinv_set h i _ _ _ _ _ _ _ (Or.inl rfl)
+    · exact h
+
+theorem toCell_withLink_nohash (v : Val) (lk : Link) :
+    ∀ cls ty cm m args l h, v.toCell.withLink lk = Cell.node cls ty cm m args l h → h = none := by
+  intro cls ty cm m args l h he
+  cases v <;> simp [Val.toCell, emptyCell, Cell.withLink] at he
+  exact he.2.2.2.2.2.2.symm
+
+theorem attach_hinv (hashOf : Val → Option Nat) (A : List Cell) (v : Val) (j : Nat) (k : String) (arr : Bool)
+    (A' : List Cell) (hA : HInv hashOf A) (h : attach A v.toCell j k arr = some A') : HInv hashOf A' := by
+  unfold attach at h
+  split at h
+  · have hB := clearUp_hinv hashOf A.length A j hA
+    simp only at h
+    split at h
+    · rename_i cls ty c m args l hh hget
+      simp at h
+      subst h
+      apply hinv_append
+      · exact hinv_set hB j _ _ _ _ _ _ _ (hB j _ _ _ _ _ _ _ hget)
+      · intro c hc
+        simp at hc; subst hc
+        exact toCell_withLink_nohash v _
+    · simp at h
+  · simp at h
+
+theorem assignArg_hinv (hashOf : Val → Option Nat) (A : List Cell) (j : Nat) (k : String) (s : Slot)
+    (cells : List Cell) (A' : List Cell) (hA : HInv hashOf A)
+    (hc : ∀ c ∈ cells, ∀ cls ty cm m args l h, c = Cell.node cls ty cm m args l h → h = none)
+    (h : assignArg A j k s cells = some A') : HInv hashOf A' := by
+  unfold assignArg at h
+  split at h
+  · rename_i cls ty c m args l hh hget
+    simp at h
+    subst h
+    exact hinv_append (hinv_set hA j _ _ _ _ _ _ _ (hA j _ _ _ _ _ _ _ hget)) cells hc
+  · simp at h
+
+theorem fillCell_hinv (hashOf : Val → Option Nat) (A : List Cell) (j : Nat) (c : Comments) (ty : Option Val)
+    (m : Meta) (v : Val) (A' : List Cell) (hA : HInv hashOf A)
+    (h : fillCell A j c ty m (hashOf v) = some A') : HInv hashOf A' := by
+  unfold fillCell at h
+  split at h
+  · simp at h
+    subst h
+    exact hinv_set hA j _ _ _ _ _ _ _ (Or.inr ⟨v, rfl⟩)
+  · simp at h
+
+theorem copy_hashes_from_source (hashOf : Val → Option Nat) (t : Val) (B : List Cell)
+    (h : copyArena hashOf t = some B) : HInv hashOf B := by
+  unfold copyArena copyLoop at h
+  refine copyLoopWith_pres attach hashOf (HInv hashOf) ?_ ?_ ?_ ?_ _ _ _ _ ?_ h
+  · intro A v j k arr A' hA hat; exact attach_hinv hashOf A v j k arr A' hA hat
+  · intro A j k v A' hA hn has
+    refine assignArg_hinv hashOf A j k _ _ A' hA ?_ has
+    intro c hc; simp at hc; subst hc
+    intro cls ty cm m args l hh he
+    cases v <;> simp_all [Val.toCell, Val.isNode]
+  · intro A j k A' hA has
+    exact assignArg_hinv hashOf A j k _ _ A' hA (by simp) has
+  · intro A j c ty m v A' hA hf; exact fillCell_hinv hashOf A j c ty m v A' hA hf
+  · intro j cls ty c m args l hh hj
+    cases t <;> simp [Val.toCell, emptyCell] at hj
+    · cases j with
+      | zero => simp at hj; exact Or.inl hj.2.2.2.2.2.2.symm
+      | succ n => simp at hj
+    all_goals (cases j <;> simp at hj)
+
+
+/-- structure of a proper heap tree: children refs point forwards and inside the arena, parent indices backwards -/
+def CellInvS (n j : Nat) : Cell → Prop
+  | .node _ _ _ _ args link _ => (∀ r ∈ slotsRefs args, j < r ∧ r < n) ∧ (∀ l, link = some l → l.parent < j)
+  | _ => True
+
+def RInv (A : List Cell) : Prop := ∀ j c, A[j]? = some c → CellInvS A.length j c
+
+theorem CellInvS_eH (n j : Nat) (c : Cell) : CellInvS n j (eH c) ↔ CellInvS n j c := by
+  cases c <;> simp [eH, CellInvS]
+
+theorem CellInvS_mono {n n' j : Nat} {c : Cell} (h : CellInvS n j c) (hn : n ≤ n') : CellInvS n' j c := by
+  cases c with
+  | node cls ty cm m args link hsh =>
+    simp only [CellInvS] at h ⊢
+    exact ⟨fun r hr => ⟨(h.1 r hr).1, by have := (h.1 r hr).2; omega⟩, h.2⟩
+  | dtype s => trivial
+  | raw r => trivial
+
+theorem rinv_of_mapE {A A' : List Cell} (h : mapE A = mapE A') (hA : RInv A) : RInv A' := by
+  intro j c' hj
+  have hlen := mapE_len_eq h
+  have hg := mapE_get h j
+  cases hc : A[j]? with
+  | none => simp [hc, hj] at hg
+  | some c =>
+    simp only [hc, hj, Option.map_some, Option.some.injEq] at hg
+    have := hA j c hc
+    rw [← CellInvS_eH, hg, CellInvS_eH, hlen] at this
+    exact this
+
+theorem rinv_step {A : List Cell} (hA : RInv A) (j : Nat) (cls ty c m args l h args' h')
+    (hget : A[j]? = some (Cell.node cls ty c m args l h)) (cells : List Cell)
+    (hrefs : ∀ r ∈ slotsRefs args', r ∈ slotsRefs args ∨ (A.length ≤ r ∧ r < A.length + cells.length))
+    (hcells : ∀ c ∈ cells, (∃ s, c = .dtype s) ∨ (∃ r, c = .raw r) ∨
+      (∃ cn t cm' m' lk hh, c = .node cn t cm' m' [] (some lk) hh ∧ lk.parent = j)) :
+    RInv (A.set j (Cell.node cls ty c m args' l h') ++ cells) := by
+  have hjlt := lt_of_get hget
+  have hpar := hA j _ hget
+  simp only [CellInvS] at hpar
+  intro i ci hi
+  have hlen : (A.set j (Cell.node cls ty c m args' l h') ++ cells).length = A.length + cells.length := by simp
+  rw [hlen]
+  by_cases hin : i < A.length
+  · rw [List.getElem?_append_left (by simpa using hin)] at hi
+    by_cases hij : i = j
+    · subst hij
+      simp [hin] at hi
+      subst hi
+      simp only [CellInvS]
+      refine ⟨?_, hpar.2⟩
+      intro r hr
+      rcases hrefs r hr with h1 | h1
+      · have := hpar.1 r h1; omega
+      · omega
+    · rw [List.getElem?_set_ne (fun e => hij e.symm)] at hi
+      exact CellInvS_mono (hA i ci hi) (by omega)
+  · rw [List.getElem?_append_right (by simpa using Nat.le_of_not_lt hin)] at hi
+    have hm := List.mem_of_getElem? hi
+    rcases hcells ci hm with ⟨s, rfl⟩ | ⟨r, rfl⟩ | ⟨cn, t, cm', m', lk, hh, rfl, hp⟩
+    · trivial
+    · trivial
+    · simp only [CellInvS, slotsRefs]
+      refine ⟨by simp, ?_⟩
+      intro l' hl'
+      simp at hl'; subst hl'
+      omega
+
+theorem toCell_withLink_cases (v : Val) (lk : Link) :
+    (∃ s, v.toCell.withLink lk = .dtype s) ∨ (∃ r, v.toCell.withLink lk = .raw r) ∨
+      (∃ cn t cm' m' lk' hh, v.toCell.withLink lk = .node cn t cm' m' [] (some lk') hh ∧ lk'.parent = lk.parent) := by
+  cases v with
+  | node cls ty c m args => exact Or.inr (Or.inr ⟨cls, none, none, none, lk, none, by simp [Val.toCell, emptyCell, Cell.withLink], rfl⟩)
+  | dtype s => exact Or.inl ⟨s, by simp [Val.toCell, Cell.withLink]⟩
+  | raw r => exact Or.inr (Or.inl ⟨r, by simp [Val.toCell, Cell.withLink]⟩)
+
+theorem attach_rinv (A : List Cell) (v : Val) (j : Nat) (k : String) (arr : Bool) (A' : List Cell)
+    (hA : RInv A) (h : attach A v.toCell j k arr = some A') : RInv A' := by
+  unfold attach at h
+  split at h
+  · have hB : RInv (clearUp A A.length j) := rinv_of_mapE (clearUp_mapE A.length A j).symm hA
+    have hBlen : (clearUp A A.length j).length = A.length := mapE_len_eq (clearUp_mapE A.length A j)
+    simp only at h
+    split at h
+    · rename_i cls ty c m args l hh hget
+      simp at h
+      subst h
+      apply rinv_step hB j _ _ _ _ _ _ _ _ _ hget
+      · intro r hr
+        rcases linkArgs_refs _ _ _ _ _ r hr with h1 | h1
+        · exact Or.inl h1
+        · exact Or.inr (by simp [hBlen]; omega)
+      · intro c hc
+        simp at hc; subst hc
+        exact toCell_withLink_cases v _
+    · simp at h
+  · simp at h
+
+theorem assignArg_rinv1 (A : List Cell) (j : Nat) (k : String) (v : Val) (A' : List Cell) (hA : RInv A)
+    (hn : v.isNode = false) (h : assignArg A j k (.one A.length) [v.toCell] = some A') : RInv A' := by
+  unfold assignArg at h
+  split at h
+  · rename_i cls ty c m args l hh hget
+    simp at h
+    subst h
+    apply rinv_step hA j _ _ _ _ _ _ _ _ _ hget
+    · intro r hr
+      rcases setKey_refs _ _ _ r hr with h1 | h1
+      · exact Or.inl h1
+      · simp [Slot.refs] at h1; exact Or.inr (by simp; omega)
+    · intro c hc
+      simp at hc; subst hc
+      cases v with
+      | node => simp [Val.isNode] at hn
+      | dtype s => exact Or.inl ⟨s, rfl⟩
+      | raw r => exact Or.inr (Or.inl ⟨r, rfl⟩)
+  · simp at h
+
+theorem assignArg_rinv0 (A : List Cell) (j : Nat) (k : String) (A' : List Cell) (hA : RInv A)
+    (h : assignArg A j k (.many []) [] = some A') : RInv A' := by
+  unfold assignArg at h
+  split at h
+  · rename_i cls ty c m args l hh hget
+    simp only [Option.some.injEq] at h
+    subst h
+    apply rinv_step hA j _ _ _ _ _ _ _ _ _ hget
+    · intro r hr
+      rcases setKey_refs _ _ _ r hr with h1 | h1
+      · exact Or.inl h1
+      · simp [Slot.refs] at h1
+    · intro c hc; simp at hc
+  · simp at h
+
+theorem fillCell_rinv (A : List Cell) (j : Nat) (c : Comments) (ty : Option Val) (m : Meta) (hv : Option Nat)
+    (A' : List Cell) (hA : RInv A) (h : fillCell A j c ty m hv = some A') : RInv A' := by
+  unfold fillCell at h
+  split at h
+  · rename_i cls ty0 c0 m0 args l hh hget
+    simp at h
+    subst h
+    have := rinv_step hA j cls ty0 c0 m0 args l hh args hv hget [] (fun r hr => Or.inl hr) (by simp)
+    intro i ci hi
+    cases hA' : A[j]? with
+    | none => simp [hA'] at hget
+    | some c0' =>
+      have hi' : (A.set j (Cell.node cls ty0 c0 m0 args l hv) ++ [])[i]? = some
+          (if i = j then Cell.node cls ty0 c0 m0 args l hv else ci) := by
+        by_cases hij : i = j
+        · subst hij; simp [lt_of_get hget]
+        · simp [hij, List.getElem?_set_ne (fun e => hij e.symm)] at hi ⊢; exact hi
+      by_cases hij : i = j
+      · subst hij
+        simp [lt_of_get hget] at hi
+        subst hi
+        have h2 := this i _ (by simpa using hi')
+        simpa [CellInvS] using h2
+      · simp only [hij, if_false] at hi'
+        have h2 := this i _ hi'
+        simpa using h2
+  · simp at h
+
+/-- **the copy shares no node**: every ref and every parent index in the finished copy points at a cell this copy
+    allocated (forwards / backwards inside its own arena) — nothing dangles, nothing is referenced from outside -/
+theorem copy_closed (hashOf : Val → Option Nat) (t : Val) (B : List Cell)
+    (h : copyArena hashOf t = some B) : RInv B := by
+  unfold copyArena copyLoop at h
+  refine copyLoopWith_pres attach hashOf RInv ?_ ?_ ?_ ?_ _ _ _ _ ?_ h
+  · intro A v j k arr A' hA hat; exact attach_rinv A v j k arr A' hA hat
+  · intro A j k v A' hA hn has; exact assignArg_rinv1 A j k v A' hA hn has
+  · intro A j k A' hA has; exact assignArg_rinv0 A j k A' hA has
+  · intro A j c ty m v A' hA hf; exact fillCell_rinv A j c ty m _ A' hA hf
+  · intro j c hj
+    cases j with
+    | zero =>
+      simp at hj; subst hj
+      cases t <;> simp [Val.toCell, emptyCell, CellInvS, slotsRefs]
+    | succ n => simp at hj
+
+
+/-! ## Part E: exactly which payload lists `load` accepts -/
+
+def Cell.isNodeC : Cell → Bool
+  | .node .. => true
+  | _ => false
+
+/-- `kinds[i]` says whether payload `i` built an Expression. A later payload is accepted iff it builds a cell by itself
+    (`mkCell`: has CLASS — with loadable nested TYPE / `__expr__` lists and, for the DType marker, a str VALUE — or has
+    VALUE), has ARG_KEY, and its INDEX names an *earlier* payload that built an Expression. -/
+def tailOK (kinds : List Bool) : List Payload → Bool
+  | [] => true
+  | p :: ps => match mkCell p, pIndex p, pKey p with
+    | some cell, some idx, some _ => kinds.getD idx false && tailOK (kinds ++ [cell.isNodeC]) ps
+    | _, _, _ => false
+
+/-- the empty list is accepted (`load` returns `None`); otherwise the first payload must have a CLASS (`mkRoot`) -/
+def accepts : List Payload → Bool
+  | [] => true
+  | p :: ps => match mkRoot p with
+    | some root => tailOK [root.isNodeC] ps
+    | none => false
+
+theorem isNodeC_eH (c : Cell) : (eH c).isNodeC = c.isNodeC := by cases c <;> rfl
+
+theorem kinds_mapE (A : List Cell) : (mapE A).map Cell.isNodeC = A.map Cell.isNodeC := by
+  simp [mapE, List.map_map, Function.comp_def, isNodeC_eH]
+
+theorem kinds_get (A : List Cell) (idx : Nat) :
+    (A.map Cell.isNodeC).getD idx false = match A[idx]? with
+      | some c => c.isNodeC
+      | none => false := by
+  simp [List.getD, List.getElem?_map]
+  cases A[idx]? <;> rfl
+
+theorem withLink_isNodeC (c : Cell) (l : Link) : (c.withLink l).isNodeC = c.isNodeC := by
+  cases c <;> rfl
+
+theorem attach_kinds (A : List Cell) (cell : Cell) (idx : Nat) (k : String) (arr : Bool) :
+    match attach A cell idx k arr with
+    | some A' => (A.map Cell.isNodeC).getD idx false = true ∧
+        A'.map Cell.isNodeC = A.map Cell.isNodeC ++ [cell.isNodeC]
+    | none => (A.map Cell.isNodeC).getD idx false = false := by
+  have hk : (clearUp A A.length idx).map Cell.isNodeC = A.map Cell.isNodeC := by
+    rw [← kinds_mapE, clearUp_mapE, kinds_mapE]
+  have hlen : (clearUp A A.length idx).length = A.length := mapE_len_eq (clearUp_mapE A.length A idx)
+  unfold attach
+  by_cases hlt : idx < A.length
+  · simp only [hlt, if_true]
+    rw [← hk, kinds_get]
+    cases hc : (clearUp A A.length idx)[idx]? with
+    | none =>
+      have := List.getElem?_eq_none_iff.mp hc
+      omega
+    | some c0 =>
+      cases c0 with
+      | node cls ty c m args l h =>
+        simp only [Cell.isNodeC, true_and]
+        rw [List.map_append, List.map_set, List.map_cons, List.map_nil, withLink_isNodeC]
+        congr 1
+        apply set_self
+        simp [hc, Cell.isNodeC]
+      | dtype s => simp [Cell.isNodeC]
+      | raw r => simp [Cell.isNodeC]
+  · simp only [hlt, if_false]
+    rw [kinds_get]
+    have : A[idx]? = none := List.getElem?_eq_none_iff.mpr (by omega)
+    simp [this]
+
+theorem loadList_accepts : ∀ (ps : List Payload) (A : List Cell),
+    (loadList ps A).isSome = tailOK (A.map Cell.isNodeC) ps := by
+  intro ps
+  induction ps with
+  | nil => intro A; simp [loadList, tailOK]
+  | cons p ps ih =>
+    intro A
+    simp only [loadList, tailOK]
+    cases hc : mkCell p with
+    | none => simp
+    | some cell =>
+      cases hi : pIndex p with
+      | none => simp
+      | some idx =>
+        cases hk : pKey p with
+        | none => simp
+        | some k =>
+          have hat := attach_kinds A cell idx k (pArr p)
+          cases ha : attach A cell idx k (pArr p) with
+          | none => simp only [ha] at hat; dsimp only; rw [ha, hat]; simp
+          | some A' =>
+            simp only [ha] at hat
+            dsimp only
+            rw [ha, hat.1, ← hat.2]
+            simpa using ih A'
+
+/-- **which payload lists `load` accepts**: `loadArena ps` is defined exactly when `accepts ps` -/
+theorem loadArena_accepts (ps : List Payload) : (loadArena ps).isSome = accepts ps := by
+  cases ps with
+  | nil => rfl
+  | cons p ps =>
+    simp only [loadArena, accepts]
+    cases hr : mkRoot p with
+    | none => simp
+    | some root => simpa using loadList_accepts ps [root]
+
 end SqlglotModel.Serde
